@@ -8,7 +8,7 @@ PROP = {
     "theorems": ["Gnmi.C07." + t for t in [
         "never_sends_denied", "step_ok", "pump_ok", "subscribe_ok", "feed_ok",
         "unauthenticated_if_no_acl", "single_target_denied_early"]],
-    "components": [su_component("")],
+    "components": [su_component(""), su_component("c08", 150, 1500)],
     "monitor": "spec", "level": "proof",
     "trusted_base": SUB_TB, "assumptions": SUB_ASSUMPTIONS,
     "manifest": {
